@@ -183,14 +183,16 @@ func Kinds() []*Kind {
 		{Name: "cc-gcc-leaky-bucket", Buffering: true, Variants: 1, New: func(v int) (interceptor.Interceptor, *Extra, error) {
 			x := &Extra{Interval: 5 * time.Millisecond}
 			f, err := cc.NewInterceptor(func() (cc.BandwidthEstimator, error) {
-				b, err := gcc.NewSendSideBWE()
+				// the rate stays above what the workloads offer (at most two packets of 112 bytes per
+				// millisecond): a pacer that is offered more than it may send queues without bound by design
+				b, err := gcc.NewSendSideBWE(gcc.SendSideBWEInitialBitrate(4_000_000), gcc.SendSideBWEMinBitrate(3_000_000))
 				x.BWE = b
 				return b, err
 			})
 			return mk(f, err, x)
 		}},
 		{Name: "pacing", Buffering: true, Variants: 1, New: func(v int) (interceptor.Interceptor, *Extra, error) {
-			f := pacing.NewInterceptor(pacing.InitialRate(1_000_000), pacing.Interval(5*time.Millisecond))
+			f := pacing.NewInterceptor(pacing.InitialRate(4_000_000), pacing.Interval(5*time.Millisecond))
 			x := &Extra{Pacing: f, PacingID: "pc", Interval: 5 * time.Millisecond}
 			return mk(f, nil, x)
 		}},
